@@ -10,6 +10,7 @@ from ...schema import (
     EnumType,
     GraphQLType,
     InputObjectType,
+    ListType,
     NonNullType,
     ScalarType,
     unwrap_type,
@@ -93,6 +94,15 @@ class ValuesOfCorrectTypeChecker(ValidationVisitor):
                 input_type.get_value(node.value)
             except UnknownEnumValue:
                 self._report_bad_value(input_type, node)
+
+    def enter_list_value(self, node):
+        # The type info visitor has already pushed the item type, the type
+        # expected at the position of the list literal is one level below.
+        stack = self.type_info._input_type_stack
+        expected = stack[-2] if len(stack) >= 2 else None
+        nullable = expected.type if isinstance(expected, NonNullType) else expected
+        if nullable is not None and not isinstance(nullable, ListType):
+            self._report_bad_value(expected, node)
 
     def enter_object_value(self, node):
         named_type = (
